@@ -335,7 +335,7 @@ func (m *Machine) assertProp(label string, c Value) {
 			r, mo = m.check(m.tf.Not(cv))
 		}
 		if sh := m.solver.shadow; sh != nil && (r == "sat" || r == "unsat") {
-			r2, _ := sh.Check(m.tf.Not(cv), false)
+			r2 := shadowCheck(sh, m.tf.Not(cv))
 			switch {
 			case r2 == r:
 				m.solver.stats.CrossAgree++
